@@ -439,3 +439,44 @@ def read_body_loop_exits(F, R, rule, tracer):
             if any(o in reach for o in ok_blocks):
                 bad.append((u, v))
     R.check(not bad, rule, "read_body:loop-exits-at-end-of-stream", "the body is read until the stream ends (the only non-error loop exit is frame() == None)", "read_body can stop reading before the stream ends (loop exit at %s): a request split into several chunks is truncated" % ["%s:%d" % (rb.file, block_line(rb, u)) for u, v in bad], "%s:%d" % (rb.file, block_line(rb, bad[0][0]) if bad else rb.lo))
+
+
+FORGET_RX = r"^std::mem::forget$|^std::mem::ManuallyDrop::<.*>::new$|^std::boxed::Box::<.*>::leak$|^std::sync::Arc::<.*>::into_raw$|OwnedSemaphorePermit::forget$|SemaphorePermit::<'.*>::forget$|Semaphore::forget_permits$|Semaphore::add_permits$"
+
+
+def forget_scan(F, R, rule, crates):
+    """no forget-like call in non-test code of `crates` (permits are RAII all the way)"""
+    hits = []
+    scanned = 0
+    for b in F.real_bodies():
+        if b.crate not in crates or is_test_body(b):
+            continue
+        scanned += 1
+        for c in b.calls:
+            if c.exp:
+                continue
+            if re.search(FORGET_RX, c.name() or "") or re.search(FORGET_RX, c.callee or ""):
+                hits.append(c)
+    R.extra[rule + ".bodies_scanned"] = scanned
+    R.floor(rule + ".scan", scanned, 400, "bodies scanned for forget-like calls")
+    for c in hits:
+        R.bad(rule, "forget:%s:%s" % (fkey(c.body), c.name().split("::")[-1]), "forget-like call %s in %s: a permit (or a value owning one) can be leaked, the slot is never returned" % (short(c.name()), short(c.body.path)), where(c))
+    if not hits:
+        R.ok(rule, "no-forget-like-calls", "no mem::forget / ManuallyDrop / leak / into_raw / permit.forget / add_permits (%d bodies scanned)" % scanned, None)
+
+
+def drop_sites(body, ty_substr):
+    """(bb, kind, loc) of every explicit mem::drop call and Drop terminator (reachable, non-cleanup) of an owned local
+    whose type contains ty_substr"""
+    out = []
+    for c in body.calls_to(r"^std::mem::drop$"):
+        p = op_place(c.args[0])
+        if p is not None and not p.get("p") and ty_substr in body.locals[p["l"]]["ty"] and not body.locals[p["l"]]["ty"].startswith("&"):
+            out.append((c.bb, "drop()", where(c)))
+    for bi, blk in enumerate(body.blocks):
+        t = blk["term"]
+        if t and t["t"] == "drop" and bi in body.reachable and not blk.get("cleanup"):
+            pl = t["pl"]
+            if not pl.get("p") and ty_substr in body.locals[pl["l"]]["ty"] and not body.locals[pl["l"]]["ty"].startswith("&"):
+                out.append((bi, "scope-end", "%s:%d" % (body.file, t["sp"][0])))
+    return out
